@@ -1859,6 +1859,17 @@ class NamedTupleReduce(ast.NodeTransformer):
             if a is not None and len(a) == len(node.targets[0].elts):
                 self.changed = True
                 node.value = ast.Tuple(elts=a, ctx=ast.Load())
+            # a, b = next((Rec(x, y) for ..)[, D])   ->   a, b = next(((x, y) for ..)[, D])      (unpacking a record yields its fields in order)
+            v = node.value
+            if isinstance(v, ast.Call) and isinstance(v.func, ast.Name) and v.func.id == "next" and v.args and isinstance(v.args[0], ast.GeneratorExp) and not v.keywords:
+                a = self._ctor(v.args[0].elt)
+                if a is not None and len(a) == len(node.targets[0].elts):
+                    self.changed = True
+                    v.args[0].elt = ast.Tuple(elts=a, ctx=ast.Load())
+                    if len(v.args) == 2:
+                        d = self._ctor(v.args[1])
+                        if d is not None:
+                            v.args[1] = ast.Tuple(elts=d, ctx=ast.Load())
         return node
 
     def visit_For(self, node):
